@@ -116,6 +116,11 @@ func genAggItem(r *Rand, tags *[]string, alias string) Item {
 	if fn == "count" && r.Chance(60) {
 		return Item{E: &Expr{K: "agg", Name: "count", Star: true}, Alias: alias}
 	}
+	if r.Chance(25) {
+		// nested columns that share their leaf name: net.amount / tax.amount
+		*tags = append(*tags, "agg:nested-path")
+		return Item{E: &Expr{K: "agg", Name: fn, Path: []string{Pick(r, []string{"net", "tax"}), Pick(r, []string{"amount", "qty"})}}, Alias: alias}
+	}
 	col := Pick(r, []string{"n1", "n2", "id", "z"})
 	if fn == "avg" {
 		col = Pick(r, []string{"n1", "n2", "id"})
@@ -126,9 +131,17 @@ func genAggItem(r *Rand, tags *[]string, alias string) Item {
 func genGroupTable(r *Rand, maxRows int) table {
 	t := genTable(r, maxRows)
 	gk := []any{"x", "y", "z", float64(1), float64(2), nil}
+	// values of different kinds whose %v texts coincide must still form different groups
+	mixed := [][]any{{float64(1), "1"}, {nil, "<nil>"}, {true, "true"}, {float64(1), "1", true, "true", nil, "<nil>"}}[r.Intn(4)]
+	useMixed := r.Chance(20)
 	for _, row := range t.rows {
 		m := row.(map[string]any)
+		m["net"] = map[string]any{"amount": Pick(r, numPool[:7]), "qty": Pick(r, numPool[:5])}
+		m["tax"] = map[string]any{"amount": Pick(r, numPool[3:9]), "qty": Pick(r, numPool[2:8])}
 		m["g1"] = Pick(r, gk[:2+r.Intn(2)])
+		if useMixed {
+			m["g1"] = Pick(r, mixed)
+		}
 		switch r.Intn(4) {
 		case 0:
 			m["g2"] = nil
@@ -250,6 +263,15 @@ func genC05(r *Rand, tier string) []Case {
 			}
 		}
 	}
+	// machine-integer edge: LIMIT + OFFSET beyond MaxInt64 must still be the exact window
+	const maxInt = int(^uint(0) >> 1)
+	for _, lo := range [][2]int{{maxInt, 1}, {maxInt, 0}, {maxInt - 1, 3}, {maxInt, 4}, {maxInt, 9}} {
+		for _, comma := range []bool{false, true} {
+			q := selectStar("t", nil)
+			q.Limit, q.Offset, q.LimitComma = intp(lo[0]), intp(lo[1]), comma
+			add(sweep, q, []string{"sweep", "limit:maxint"})
+		}
+	}
 	for i := 0; i < n; i++ {
 		t := genTable(r, 7)
 		for _, row := range t.rows {
@@ -301,6 +323,11 @@ func genDupTable(r *Rand, maxRows int) []any {
 		{"a": float64(1), "b": "x"}, {"a": "1", "b": "x"}, {"a": "1 b:x"}, {"a": float64(1)}, {"a": float64(2), "b": "y"},
 		{"a": "map[", "b": "[1 2]"}, {"a": []any{float64(1), float64(2)}, "b": "z"}, {"a": "[1 2]", "b": "z"}, {"a": nil, "b": "x"}, {"a": "<nil>", "b": "x"},
 		{"a": true}, {"a": "true"}, {"a": map[string]any{"c": float64(1)}}, {"a": "map[c:1]"},
+		// nested values whose %v texts coincide
+		{"a": []any{"new york"}}, {"a": []any{"new", "york"}}, {"a": []any{float64(1)}}, {"a": []any{"1"}},
+		{"a": map[string]any{"k": nil}}, {"a": map[string]any{"k": "<nil>"}},
+		{"a": map[string]any{"k": "v w:z"}}, {"a": map[string]any{"k": "v", "w": "z"}},
+		{"a": []any{[]any{float64(1), float64(2)}}}, {"a": []any{"[1 2]"}},
 	}
 	k := 1 + r.Intn(4)
 	var pool []map[string]any
